@@ -57,7 +57,11 @@ func scShutdown(r *Run) {
 		n.Cfg.Jitter = time.Duration(r.Intn("cfg", 50)) * time.Millisecond
 	}
 	r.SetCfg("net", []string{"healthy", "lossy", "dead", "dies", "one-way-death", "lossy-then-dies"}[netMode])
-	mp := NewMuxPair(r, n, 0)
+	mp := NewPairMaybeStack(r, n, 8, "C16")
+	if mp == nil {
+		return
+	}
+	defer mp.Teardown(r)
 	dead := func(now time.Duration) bool {
 		switch netMode {
 		case 2:
